@@ -24,6 +24,13 @@ func editIn(r *json.Object, p *presence.Presence, s prog.Step) (desc string, mut
 		v := fmt.Sprintf("v%d", s.B)
 		p.Set(k, v)
 		desc = fmt.Sprintf("presence.%s=%s", k, v)
+	case "pmix":
+		// one callback step that edits the root AND the presence (same shape as prog.ApplyEdit)
+		k := []string{"cursor", "name"}[s.A%2]
+		v := fmt.Sprintf("m%d", s.B)
+		r.SetInteger([]string{"k0", "k1"}[s.C%2], s.B)
+		p.Set(k, v)
+		desc = fmt.Sprintf("root.k%d=%d + presence.%s=%s", s.C%2, s.B, k, v)
 	case "pclear":
 		p.Clear()
 		desc = "presence.clear"
